@@ -889,6 +889,10 @@ pub fn write_evidence(ctx: &Ctx, prop: &Property, rec: &Recorder, violations: us
         }
         samples = out;
     }
+    if samples.is_empty() {
+        // a run that stopped at its first (early) failure has no completed non-trivial case to show
+        samples.push(json!({"note": "the run stopped before any non-trivial case completed (see violations)"}));
+    }
     let exhaustive_families = rec.exhaustive_families.lock().unwrap().clone();
     let mut coverage = json!({
         "evaluations": rec.evaluations.load(Ordering::Relaxed),
@@ -963,6 +967,8 @@ fn run_replays(ctx: &Ctx, prop: &Property, rec: &Recorder) -> Vec<Violation> {
         }
     }
     rec.set_extra("regression_replays_run", json!(n));
+    rec.evaluations.fetch_add(n, Ordering::Relaxed);
+    *rec.per_family.lock().unwrap().entry("regression-replays".to_string()).or_insert(0) += n;
     out
 }
 
